@@ -4,7 +4,7 @@
    starting at i0; pauli_diagonalize2 maps an anticommuting pair to (Z, X or Y) on the target qubit.  Signs: a rotation of a Hermitian operator is Hermitian (C02), so
    the image is +Z or -Z.  The state case is C04/C10 (backward map = encoding map, forward = its inverse).  SBRG: float coefficients and argmax ties are outside the model;
    its diagonal-form and exactness claims are checked by the correspondence check only (PARTIAL, see DESIGN.md). *)
-From PC Require Import Model.Base Model.Pauli Model.Diag Model.Spec Proofs.DiagFacts Proofs.Rotate Proofs.IndexFacts.
+From PC Require Import Model.Base Model.Pauli Model.Diag Model.Spec Proofs.DiagFacts Proofs.Rotate Proofs.IndexFacts Model.Circuit Proofs.CircuitFacts Proofs.DiagCircuitFacts.
 
 Theorem C18_diag1_maps_to_Z : forall g i0, (i0 < length g)%nat -> is_id_str g = false ->
   apply_gens (diagonalize1 g i0) g = z_at (length g) i0.
@@ -35,3 +35,22 @@ Print Assumptions C18_image_is_plus_or_minus.
 Theorem C18_signless_is_string_part : forall g a p q, fst (rotate1 (g, p) (a, q)) = rotate1_signless g a.
 Proof. exact rotate1_signless_fst. Qed.
 Print Assumptions C18_signless_is_string_part.
+(* the CIRCUIT returned by diagonalize(Pauli): layered rotation gates on the condensed supports *)
+Theorem C18_circuit_maps_to_plus_or_minus_Z : forall n g p i0, length g = n -> (i0 < n)%nat -> is_id_str g = false -> (p = 0 \/ p = 2) ->
+  exists p', (p' = 0 \/ p' = 2) /\
+  circuit_forward n (only_layers (circ_build (map IGate (diagonalize_pauli g i0 false)))) [(g, p)] = Some [(z_at n i0, p')].
+Proof. exact diagonalize_pauli_circuit. Qed.
+Print Assumptions C18_circuit_maps_to_plus_or_minus_Z.
+Theorem C18_causal_circuit_acts_on_later_qubits_only : forall g i0, (i0 < length g)%nat ->
+  Forall (fun gt => Forall (fun q => (i0 <= q)%nat) (gq gt)) (diagonalize_pauli g i0 true).
+Proof. exact diagonalize_pauli_causal_qubits. Qed.
+Print Assumptions C18_causal_circuit_acts_on_later_qubits_only.
+Theorem C18_causal_circuit_maps_suffix_to_Z : forall n g p i0, length g = n -> (i0 < n)%nat -> is_id_str (skipn i0 g) = false -> (p = 0 \/ p = 2) ->
+  exists p', (p' = 0 \/ p' = 2) /\
+  circuit_forward n (only_layers (circ_build (map IGate (diagonalize_pauli g i0 true)))) [(g, p)] = Some [(firstn i0 g ++ z_at (n - i0) 0, p')].
+Proof. exact diagonalize_pauli_causal_circuit. Qed.
+Print Assumptions C18_causal_circuit_maps_suffix_to_Z.
+Theorem C18_rotation_gate_is_the_rotation : forall n gen a, length (fst gen) = n -> wf n a ->
+  gate_forward n (rotation_gate gen None) [a] = Some [rotate1 gen a].
+Proof. exact rotation_gate_acts_gen. Qed.
+Print Assumptions C18_rotation_gate_is_the_rotation.
